@@ -892,7 +892,6 @@ func (t *Term) def() string {
 	return sb.String()
 }
 
-
 // ---- reals (the relaxed model of float64 in Int mode) ----
 
 func (c *Ctx) RConst(r *big.Rat) *Term {
